@@ -409,7 +409,7 @@ func (ft *FT) indexAddr(x *ssa.IndexAddr, st *State, guard Term) {
 	case *types.Slice:
 		s := ft.val(x.X)
 		ft.safety("bounds", x.Pos(), guard, and(app("<=", "0", i), app("<", i, app("sl-len", s))))
-		ft.locs[x] = &Loc{key: ft.elemKey(xt.Elem()), idx: []Term{app("sl-base", s), app("+", app("sl-off", s), i)}, typ: xt.Elem()}
+		ft.locs[x] = &Loc{key: ft.elemKey(xt.Elem()), idx: []Term{app("sl-base", s), app("+", app("sl-off", s), i)}, typ: xt.Elem(), sl: s, si: i}
 	case *types.Pointer:
 		at := xt.Elem().Underlying().(*types.Array)
 		ft.safety("bounds", x.Pos(), guard, and(app("<=", "0", i), app("<", i, num(at.Len()))))
